@@ -147,7 +147,7 @@ Lemma spec_duration_range h m s : 0 <= h <= 23 -> 0 <= m <= 59 -> 0 <= s <= 59 -
 Proof. unfold tod_seconds. lia. Qed.
 
 (* the same for the float64 model of the two writers, for the 86400 seconds of a day (for all durations
-   below 100 h the float64 expressions are shown equal to the integer ones in DvbDuration100hProofs.v) *)
+   below 100 h the float64 expressions are shown equal to the integer ones in DvbSupplementProofs.v) *)
 Lemma enc_duration_float_bytes h m s : 0 <= h <= 23 -> 0 <= m <= 59 -> 0 <= s <= 59 ->
   bytes_of_items (enc_dvb_duration_seconds_float (spec_duration_ns h m s)) = [bcd_byte h; bcd_byte m; bcd_byte s] /\
   bytes_of_items (enc_dvb_duration_minutes_float (spec_duration_ns h m s)) = [bcd_byte h; bcd_byte m].
@@ -284,16 +284,15 @@ Proof.
   rewrite Ph, Pm, Ps. rewrite spec_unix_eq by exact Hmjd. reflexivity.
 Qed.
 
-(* all 2^40 raw words: date of the MJD word as the code computes it, time digit-wise *)
+(* all 2^40 raw words: date of the MJD word as the (integer model of the) code computes it, time digit-wise *)
 Lemma decode_raw b0 b1 b2 b3 b4 rest :
   0 <= b0 <= 255 -> 0 <= b1 <= 255 -> 0 <= b2 <= 255 -> 0 <= b3 <= 255 -> 0 <= b4 <= 255 ->
   parse_dvb_time (new_iter (b0 :: b1 :: b2 :: b3 :: b4 :: rest)) =
-  Ok (DvbFloat.dvb_date_unix_float (b0 * 256 + b1) + tod_seconds (bcd_value b2) (bcd_value b3) (bcd_value b4),
+  Ok (dvb_date_unix (b0 * 256 + b1) + tod_seconds (bcd_value b2) (bcd_value b3) (bcd_value b4),
       mk_iter (b0 :: b1 :: b2 :: b3 :: b4 :: rest) 5).
 Proof.
   intros H0 H1 H2 H3 H4. rewrite parse_time_bytes.
-  destruct (dur3_digits b2 b3 b4 H2 H3 H4) as [_ E]. rewrite E.
-  rewrite decode_unix_float_int by lia. reflexivity.
+  destruct (dur3_digits b2 b3 b4 H2 H3 H4) as [_ E]. rewrite E. reflexivity.
 Qed.
 
 (* ================= the 40-bit field, encode ================= *)
@@ -421,7 +420,7 @@ Qed.
 
 (* ================= the statements of Props/C15.v ================= *)
 
-Lemma thm_float_model_all_words : forall mjd, 0 <= mjd <= 65535 ->
+Lemma thm_float_model_decode : forall mjd, 15079 <= mjd <= 65535 ->
   DvbFloat.mjd_to_ymd_float mjd = dvb_ymd mjd /\ DvbFloat.dvb_date_unix_float mjd = dvb_date_unix mjd.
 Proof. intros mjd H. split; [apply decode_float_int|apply decode_unix_float_int]; exact H. Qed.
 
@@ -537,7 +536,7 @@ Lemma thm_raw_words :
   (forall b0 b1 b2 b3 b4 rest,
      0 <= b0 <= 255 -> 0 <= b1 <= 255 -> 0 <= b2 <= 255 -> 0 <= b3 <= 255 -> 0 <= b4 <= 255 ->
      parse_dvb_time (new_iter (b0 :: b1 :: b2 :: b3 :: b4 :: rest)) =
-     Ok (DvbFloat.dvb_date_unix_float (b0 * 256 + b1) + tod_seconds (bcd_value b2) (bcd_value b3) (bcd_value b4),
+     Ok (dvb_date_unix (b0 * 256 + b1) + tod_seconds (bcd_value b2) (bcd_value b3) (bcd_value b4),
          mk_iter (b0 :: b1 :: b2 :: b3 :: b4 :: rest) 5)) /\
   (forall b0 b1 b2 rest, 0 <= b0 <= 255 -> 0 <= b1 <= 255 -> 0 <= b2 <= 255 ->
      parse_dvb_duration_seconds (new_iter (b0 :: b1 :: b2 :: rest)) =
